@@ -1,4 +1,4 @@
-import OH.Proofs.SynYear
+import OH.Proofs.SynWeek
 /-
 Wide-range selectors, part 3a: the pieces of a month-day range:
   `month`, `daynum` (with its look-ahead), `wday`, `day_offset` (explicit pair), `date_from`,
@@ -114,7 +114,7 @@ theorem run_month_none_head (q : Bool) (c : Char) (r : List Char) (h : ¬ MonthL
 /-- a printed month starts with a month letter -/
 theorem monthStr_head (m : Nat) : ∃ c cs, Print.monthStr m = c :: cs ∧ MonthLetter c := by
   unfold Print.monthStr
-  split <;> exact ⟨_, _, rfl, by simp [MonthLetter]⟩
+  split <;> simp [Print.str, MonthLetter]
 
 /-! ### `daynum = @{ daynum_digits ~ !(":" ~ minute ~ !(":" ~ minute)) }` -/
 
